@@ -367,3 +367,53 @@ Proof.
     + intros _. rewrite E1. rewrite <- firstn_map, Hrefs. rewrite !firstn_map. rewrite firstn_firstn. f_equal. f_equal. lia.
     + intros ->. lia.
 Qed.
+
+(* C10, mixed pairs: a finalized checkpoint of an OLDER epoch is refused whatever its root (the current finalized root included),
+   whatever else the update carries (a newer justified checkpoint in particular); only the array's links may have been refreshed
+   by the subtree query, nothing else of the state changes, nothing is pruned, the sink is not called. For every state. *)
+Lemma updateJustified_refuses_older_finalized : forall w f j bal,
+  fst f < fst (w_fin w) ->
+  exists pa' o, updateJustified fixed f j bal w = (set_pa w pa', o) /\
+                (forall ui, snd (InSubtree fixed (snd (w_fin w)) (snd f) (w_pa w)) = Ok ui \/ fst j < fst f -> o = Err).
+Proof.
+  intros w f j bal Hold. unfold updateJustified.
+  destruct (fst j <? fst f) eqn:Ejf.
+  - exists (w_pa w), Err. cbn [fail]. split; [destruct w; reflexivity|auto].
+  - apply N.ltb_ge in Ejf. unfold mbind at 1. unfold get at 1. unfold mbind at 1.
+    assert (Hne : cp_eqb (w_fin w) f = false).
+    { unfold cp_eqb. apply andb_false_iff. left. apply N.eqb_neq. lia. }
+    rewrite Hne. cbn [negb]. unfold mbind at 1. unfold inner_InSubtree. cbn [f_relock fixed]. unfold lift_pa at 1.
+    destruct (InSubtree fixed (snd (w_fin w)) (snd f) (w_pa w)) as [pa' o] eqn:Ei. cbn [fst snd].
+    exists pa'. destruct o as [[u i]| | | |]; cbn [fst snd].
+    + replace (fst f <? fst (w_fin w)) with true by (symmetry; apply N.ltb_lt; exact Hold). rewrite orb_true_r.
+      exists Err. destruct u; cbn [fail]; split; auto.
+    + exists Err. split; auto.
+    + exists (Panic p). split; [reflexivity|]. intros ui [H|H]; [discriminate|lia].
+    + exists Blocked. split; [reflexivity|]. intros ui [H|H]; [discriminate|lia].
+    + exists OutOfFuel. split; [reflexivity|]. intros ui [H|H]; [discriminate|lia].
+Qed.
+
+Theorem update_older_finalized_refused : forall sink trigger j f bal w ui,
+  w_locked w = false ->
+  fst f < fst (w_fin w) -> fst (w_just w) < fst j ->             (* finalized behind, justified ahead *)
+  (match w_pin w with Some p => trigger = fst p | None => True end) ->
+  snd (InSubtree fixed (snd (w_fin w)) (snd f) (w_pa w)) = Ok ui \/ fst j < fst f ->
+  exists pa', W_UpdateJustified fixed sink trigger j f bal w = (set_pa w pa', Err).
+Proof.
+  intros sink trigger j f bal w ui Hw Hold Hnew Hpin Hq.
+  unfold W_UpdateJustified, locked_call. rewrite Hw.
+  unfold UpdateJustified_body. unfold mbind at 1. unfold get at 1.
+  assert (Hc : (fst j <=? fst (w_just (set_locked w true))) && (fst f <=? fst (w_fin (set_locked w true))) = false).
+  { cbn [w_just w_fin set_locked]. apply andb_false_iff. left. apply N.leb_gt. exact Hnew. }
+  rewrite Hc. unfold mbind at 1.
+  assert (Hp : (match w_pin (set_locked w true) with
+                | Some pin => if negb (trigger =? fst pin)
+                              then mbind (inner_InSubtree fixed (fst pin) trigger)
+                                         (fun ui => if fst ui then fail Err else if negb (snd ui) then fail Err else ret tt)
+                              else ret tt
+                | None => ret tt end) (set_locked w true) = (set_locked w true, Ok tt)).
+  { cbn [w_pin set_locked]. destruct (w_pin w) as [p|]; [|reflexivity]. subst trigger. rewrite N.eqb_refl. reflexivity. }
+  rewrite Hp. cbn [f_argorder fixed]. unfold mbind at 1.
+  destruct (updateJustified_refuses_older_finalized (set_locked w true) f j bal Hold) as [pa' [o [Heq Herr]]].
+  rewrite Heq. rewrite (Herr ui Hq). exists pa'. destruct w; cbn in *; subst; reflexivity.
+Qed.
